@@ -1,8 +1,9 @@
 /-
 Model of `Recommendations.get_markdown` (paroxython/recommend_programs.py) as a STRUCTURED report,
 of `goodies.cost_bucket`, of the `result` log kept by `run_pipeline`, and of the `-o stdout` mode
-of cli_recommend.py. Rendering details (slugs, line-number gutter, wrapping) are outside the model;
-the harness parses the real Markdown back into this structure.
+of cli_recommend.py. The text of the Location cell (spans, wrapping) is modelled in Model/ReportCell.lean;
+slugs and the line-number gutter are outside the model; the harness parses the real Markdown back into
+this structure.
 -/
 import Paroxy.Model.Costs
 namespace Paroxy.Report
